@@ -34,6 +34,7 @@ FIELD_PROPS = {
         "callers": ["C06", "C11"],
         "cache": ["C06", "C11"],
     },
+    "lay": {},
     "hyb": {
         "ret": ["C01", "C17", "C12"],
         "mem": ["C12", "C01"],
@@ -530,5 +531,52 @@ CLAIMS.update({
             "note": HYB_NOTE + "PARTIAL: that the closing flush takes *every* resident entry is policy-specific and only "
                     "checked by correspondence; idempotence of close / writes after close are not exercised yet",
             "technique": "Lean 4 proof (pending-entry invariant through close) + trace-validating correspondence across reopen"},
+})
+PROPS.update({
+    "C07": {
+        "domain": "lay",
+        "proof_module": "FoyerProofs.C07",
+        "theorems": ["Foyer.Blk.splitter_refines_spec", "Foyer.Blk.split_refines", "Foyer.Blk.handle_refines",
+                     "Foyer.Blk.layout_sound", "Foyer.Blk.block_layout_sound", "Foyer.Blk.placeAll_inv",
+                     "Foyer.Blk.scan_reads_back", "Foyer.Blk.recover_reads_back", "Foyer.Blk.scan_chain"],
+        "monitor_props": ["C07"],
+        "campaigns": {
+            "quick": [{"name": "lay-unit", "args": ["cases=400", "maxops=12"]}],
+            "thorough": [{"name": "lay-unit", "args": ["cases=12000", "maxops=20"]}],
+        },
+        "nontrivial": r"nblocks=([2-9]|\d\d)",
+        "rule": "the real Splitter::split with its SplitCtx carried across 1-20 batches per case, driven with synthetic entry "
+                "lengths (1 byte, exact page multiples +-1, the per-entry maximum and maximum-minus-a-page, random) on 16/32/64 KiB "
+                "blocks (block-full and blob-continuation paths) and 1 MiB blocks with batches of 169/170/171/1-340 one-page entries "
+                "(blob-index-full paths); every batch's blob parts, the blob index pages as decoded by the real BlobIndexReader and "
+                "every entry position are compared with the splitter model, the model with the cursor specification, and the C07 "
+                "monitor (alignment, block bounds, overlap with any earlier entry or index page of the block, scan == written) is "
+                "evaluated on the implementation's output; a watchdog turns non-termination into a failure; non-trivial = a batch "
+                "that spans several blocks; distinct = distinct (block size, index size, batch length sequences)",
+        "trusted_base": TB_COMMON,
+        "assumptions": [
+            "unit level: Splitter / SplitCtx / BlobIndex(Reader) only; that the flusher writes the parts where the splitter says, "
+            "that the index holds blob offset + in-blob offset, and that load() finds every claimed key are exercised at engine "
+            "level by the hybrid / block campaigns (C01, C09) and by C04's recovery checks",
+            "the theorems are about the transcription FoyerModel.Block.split; entries longer than block - index size are refused "
+            "before the splitter (Buffer::push), which is the theorems' hypothesis `I + alignUp P len <= B`",
+            "the scanner theorem is about a block whose index pages are exactly the blobs written (fresh or cleaned block); stale "
+            "blobs of a reused block are cut off by recovery's sequence guard, which is modelled (guardSeq) but that argument is "
+            "not proved",
+        ],
+    },
+})
+CLAIMS.update({
+    "C07": {"text": "Lean 4 theorems: the splitter model (a transcription of Splitter::split with the split context carried across "
+                    "batches) refines a monotone cursor allocator for every sequence of batches of entries that fit a block; in the "
+                    "allocator every index page and entry is page aligned, inside one block and disjoint from every other, and the "
+                    "scanner model reads every block back exactly (hash, sequence, position, length), stopping behind the last blob. "
+                    "Tied to /repo by driving the real Splitter / BlobIndexReader with generated batch sequences and comparing every "
+                    "part, index page and position with the model",
+            "note": "trusted: Lean kernel; axioms propext/Classical.choice/Quot.sound; harness + driver; hand-written model tied by "
+                    "differential testing; PARTIAL: unit level (see assumptions) - the 'every claimed key loads' sentence is checked "
+                    "by correspondence at engine level only, reuse of blocks after reclaim is C09's",
+            "technique": "Lean 4 proof (refinement of the splitter model to a cursor specification + scanner-on-chain theorem) + "
+                         "trace-validating correspondence on the real Splitter"},
 })
 NOT_CLAIMED = {}
